@@ -323,6 +323,10 @@ ExecOp(S, p) ==
           THEN Emit([S EXCEPT !.effecting = @ \cup {p}, !.halt = TRUE, !.proc[p].phase = "fwait"],
                     [t |-> "EffectRequest", p |-> p, op |-> IF src.body = "effect" THEN "open" ELSE "openfail",
                      res |-> None])
+          ELSE IF src.body = "effect_read" /\ P.phase = "filter"     \* the body reads from a resource the script opened
+          THEN IF P.regs[src.reg].k # "res" THEN Fail(S, p, "TypeMismatch")
+               ELSE Emit([S EXCEPT !.effecting = @ \cup {p}, !.halt = TRUE, !.proc[p].phase = "fwait"],
+                         [t |-> "EffectRequest", p |-> p, op |-> "use", res |-> Some(P.regs[src.reg].r)])
           ELSE [S EXCEPT !.proc[p].phase = "verdict",
                          !.proc[p].verdict = FilterAccepts(st.receiving[1][2], src),
                          !.halt = TRUE]
